@@ -213,7 +213,7 @@ pub fn run(ctx: &Ctx) -> i32 {
     let tables = sut::make_tables(DEF).unwrap();
     let al = alpha();
     let k = al.len() as u64;
-    let maxlen = ctx.tier.pick(4, 5) as u32;
+    let maxlen = ctx.tier.pick(4, 6) as u32;
     let nseq = seq_count(k, maxlen);
     let nst = stmts().len() as u64;
     let (done, complete) = par_for_budget(ctx, nseq * nst, 64, |idx| {
@@ -262,7 +262,7 @@ pub fn run(ctx: &Ctx) -> i32 {
     col.sample(json!({"layer": "gap", "first": r#"{"m":"m","a":0.0}"#, "fillers": 130, "last": r#"{"m":"m","a":-0.0}"#}));
 
     // aggregate DISTINCT
-    let amax = ctx.tier.pick(3, 4) as u32;
+    let amax = ctx.tier.pick(3, 5) as u32;
     let na = seq_count(k, amax);
     let nas = AGG_STMTS.len() as u64;
     let (done, complete) = par_for_budget(ctx, na * nas, 64, |idx| {
